@@ -90,6 +90,8 @@ class ScriptConn(refdc.Conn):
                     self.slog["client_sign_flag"] = bool(d["flags"] & rpc.PFC_SIGN)
                 auth = dict(type=a["type"], level=a["level"], ctx=a["ctx"], token=tok) if tok is not None else None
                 return rpc.enc_ack_like(right if act[0] == "ack" else wrong, flags, d["call_id"], res, auth, b"49664\x00" if pt == rpc.BIND else b"")
+            # a server that refuses a bind tears the connection down right after its answer: the client's shutdown() then meets ENOTCONN
+            self.torn_down = True
             if act[0] == "nak":
                 return rpc.enc_bind_nak(d["call_id"], 4)
             if act[0] == "fault":
@@ -193,6 +195,10 @@ def invariants(log: dict, prov) -> t.List[t.Tuple[str, dict]]:
     if st in ("budget", "blocks"):
         out.append(("I7.termination", {"detail": val}))
         return out
+    if st == "exc" and val[0] in ("AttributeError", "TypeError", "NameError", "UnboundLocalError", "AssertionError"):
+        # "surfaces as an error" means the rejection itself is reported - not that the caller trips over an internal state left behind by a
+        # swallowed error (e.g. a key lookup that silently returned nothing)
+        out.append(("I9.error-is-an-internal-crash", {"exception": list(val), "actions": repr(acts)[:200]}))
     if p is None:
         out.append(("harness.no-provider", {}))
         return out
